@@ -191,8 +191,12 @@ def run(chk):
     pmc = K.exprs(fd, "self.parse_message(self._lines)")
     if not pmc:
         raise AnalysisError("C05.cap: parse_message call not found")
-    cl = PC.pc(pmc[0][0])
-    full = any(any(l.text == "self._max_msg_queue_size" and not l.pos for l in c) and any(l.text == "self._msg_in_flight < self._max_msg_queue_size" and l.pos for l in c) for c in cl)
+    # the counter grows inside the parse loop, so only a test made in the same iteration says anything about it: path condition relative to
+    # the loop; and the guard must be exactly `cap disabled or below the cap` - a further disjunct (e.g. `or a body is being read`) lets
+    # messages through at the cap
+    ploop = next(iter(K.loop_ancestors(pmc[0][0])), None)
+    cl = PC.pc(pmc[0][0], stop=ploop) if ploop is not None else PC.pc(pmc[0][0])
+    full = any({(l.text, l.pos) for l in c} == {("self._max_msg_queue_size", False), ("self._msg_in_flight < self._max_msg_queue_size", True)} for c in cl)
     if full:
         chk.ok("C05.cap", pmc[0][0], "a new message is parsed only when `not (max_msg_queue_size and msg_in_flight >= max_msg_queue_size)`")
     else:
@@ -200,7 +204,8 @@ def run(chk):
                       "the pipeline cap is not tested before the next request is parsed: unbounded parsed-but-unhandled requests", path_condition=norm.fmt_cnf(cl)[:500])
     # the queue-full test precedes even looking for the line
     finds = K.exprs(fd, "data.find(SEP, start_pos)")
-    if finds and any(any(l.text == "self._msg_in_flight < self._max_msg_queue_size" for l in c) for c in PC.pc(finds[0][0])):
+    floop = next(iter(K.loop_ancestors(finds[0][0])), None) if finds else None
+    if finds and any({(l.text, l.pos) for l in c} == {("self._max_msg_queue_size", False), ("self._msg_in_flight < self._max_msg_queue_size", True)} for c in (PC.pc(finds[0][0], stop=floop) if floop is not None else PC.pc(finds[0][0]))):
         chk.ok("C05.cap", finds[0][0], "the cap is tested before the next request line is looked at")
     else:
         chk.violation("C05.cap", fd, "pos = data.find(SEP, start_pos)", "after the queue-full test", "input is scanned before the pipeline cap is tested")
